@@ -1003,7 +1003,9 @@ def slim(c):
 def run(ctx):
     ctx.rule = ("cases are (a) search-settings round trips: one concrete search class with generated constructor keywords, name, tag, prefix; "
                 "(b) scenarios: 2-4 fits (scripted single fits with generated model shape / samples / interruption point / info / layout "
-                "zip|folder|both / 1-3 combined analyses, grid searches with 2 or 4 cells, real search classes, copied folders) written by the "
+                "zip|folder|both / 1-3 combined analyses, fits whose pre-fit output (save_all) is interrupted at each of its 9 points -- first run "
+                "and re-run, harness-side fault injection incl. a kill inside json.dump and an unserialisable info value -- beside healthy fits, "
+                "grid searches with 2 or 4 cells, real search classes, copied folders) written by the "
                 "real code into one output directory that is then loaded with add_directory(completed_only in {False,True}) and also written "
                 "through a database session. A settings case is non-trivial when it has keywords or a tag; a scenario when its directory holds "
                 ">= 2 fit / grid-search folders. distinct = distinct abstract input")
@@ -1154,7 +1156,8 @@ MANIFEST = {
             "every search class, and (b) Scraper.scrape over an abstract output directory (fit folders, analyses children, grid-search "
             "parents, completed_only, existing rows, primary-key conflicts) with universally quantified theorems (closed form of the loaded "
             "database under distinct identifiers; one row per fit folder holding its model/instance/samples/flag/info; grid parents linked "
-            "to exactly their cells with a maximal-likelihood best fit; agreement with the session route), _refuted witnesses for the two "
+            "to exactly their cells with a maximal-likelihood best fit; agreement with the session route; a fit interrupted anywhere inside "
+            "save_all leaves the load unchanged), _refuted witnesses for the two "
             "defects of the pinned code, plus vm_compute correspondence with real fits written and loaded by the running code and a "
             "direct property oracle on every generated scenario",
     "note": "Identifier tokens and model (de)serialisation are not re-modelled here (C07/C08): the recomputed identifier of a folder is an "
